@@ -27,6 +27,9 @@ pub struct Obs {
     /// final `{:?}` / `{:#?}` text and built shape of a second builder that was formatted (both ways) after every
     /// top-level call: printing is an observation, so neither may differ from the builder printed once
     pub debug_stepwise: Option<(Result<String, String>, Result<String, String>, Option<Vec<Vec<usize>>>)>,
+    /// `{:?}` text of the same registrations with every non-empty top-level name replaced by a fresh, separator-free
+    /// one: what is printed for an UNNAMED system cannot depend on what the other systems are called
+    pub debug_renamed: Option<Result<String, String>>,
     pub build_panic: Option<String>,
     pub layout: Option<Layout>,
     /// executed layout of the SAME dispatcher identified again after it has been used: after one clean dispatch,
@@ -54,6 +57,11 @@ pub struct Obs {
     pub disposes_via_run_now: Option<Vec<u32>>,
     /// try_into_sendable: Some(Ok(shape)) / Some(Err(()))
     pub sendable: Option<Result<Vec<Vec<usize>>, ()>>,
+    /// the sendable form used directly: (order in which its dispatch_seq begins the top-level members, run counters
+    /// after dispatch_seq + dispatch_par + dispatch, a call panicked)
+    pub sendable_use: Option<(Vec<usize>, Vec<u32>, Option<String>)>,
+    /// setup / dispose counters when the dispatcher is converted first and the SENDABLE form is set up and disposed
+    pub setups_via_sendable: Option<(Vec<u32>, Vec<u32>)>,
     /// after a rejected try_into_sendable: (a dispatch of the dispatcher handed back completed, run counters of that
     /// dispatch, its identified layout, a second conversion succeeded)
     pub after_rejected_conversion: Option<(bool, Vec<u32>, Option<Layout>, bool)>,
@@ -88,6 +96,35 @@ pub fn observe(ops: &[Op], resmap: &[u8], need: Need) -> Obs {
         o.debug_pretty = Some(
             catch_unwind(AssertUnwindSafe(|| format!("{:#?}", reg.builder))).map_err(|p| payload_str(&*p)),
         );
+    }
+    if need.debug && ops.iter().any(|o| matches!(o, Op::Sys(x) if x.name.is_empty()) || matches!(o, Op::Batch(b) if b.name.is_empty())) && o.calls.iter().all(|c| c.panic.is_none()) {
+        let mut names: Vec<String> = Vec::new();
+        for op in ops {
+            let n = match op {
+                Op::Sys(x) => &x.name,
+                Op::Batch(b) => &b.name,
+                Op::Static(st) => &st.name,
+                _ => continue,
+            };
+            if !n.is_empty() && !names.contains(n) {
+                names.push(n.clone());
+            }
+        }
+        let f = |s: &String| -> String { names.iter().position(|x| x == s).map_or_else(|| s.clone(), |k| format!("renamed{}", k)) };
+        let ops2: Vec<Op> = ops
+            .iter()
+            .map(|op| match op {
+                Op::Sys(x) => Op::Sys(SysSpec { name: if x.name.is_empty() { String::new() } else { f(&x.name) }, deps: x.deps.iter().map(&f).collect(), ..x.clone() }),
+                Op::Batch(b) => Op::Batch(BatchSpec { name: if b.name.is_empty() { String::new() } else { f(&b.name) }, deps: b.deps.iter().map(&f).collect(), ..b.clone() }),
+                Op::Static(st) => Op::Static(StaticSpec { name: if st.name.is_empty() { String::new() } else { f(&st.name) }, deps: st.deps.iter().map(&f).collect(), ..st.clone() }),
+                x => x.clone(),
+            })
+            .collect();
+        let ctx_r = Ctx::new(info_n, resmap.to_vec());
+        let reg_r = register(&ops2, &ctx_r, None, false);
+        if reg_r.calls.iter().all(|c| c.panic.is_none()) {
+            o.debug_renamed = Some(debug_text(&reg_r.builder));
+        }
     }
     if need.debug {
         let ctx_s = Ctx::new(info_n, resmap.to_vec());
@@ -271,7 +308,32 @@ pub fn observe(ops: &[Op], resmap: &[u8], need: Need) -> Obs {
             ctx.take_log();
         }
         o.sendable = Some(match d.try_into_sendable() {
-            Ok(sd) => Ok(sd.verif_layout()),
+            Ok(mut sd) => {
+                // "the conversion preserves its plan": the sendable form is used directly, on a world of its own
+                let shape = sd.verif_layout();
+                let info = PlanInfo::of(ops);
+                let before = ctx.runs.lock().unwrap().clone();
+                ctx.take_log();
+                let w2 = if resmap.iter().any(|c| *c as usize >= NCONCRETE) { new_world_wide() } else { new_world() };
+                let r = catch_unwind(AssertUnwindSafe(|| {
+                    sd.dispatch_seq(&w2);
+                }));
+                let order: Vec<usize> = ctx
+                    .take_log()
+                    .iter()
+                    .filter(|e| info.nodes.get(e.sys as usize).map_or(false, |n| n.parent.is_none() && match n.kind { crate::spec::Kind::Batch => matches!(e.kind, Ev::CtrlBegin | Ev::Plan), _ => e.kind == Ev::FetchBegin }))
+                    .map(|e| e.sys as usize)
+                    .collect();
+                let r2 = catch_unwind(AssertUnwindSafe(|| {
+                    sd.dispatch_par(&w2);
+                    sd.dispatch(&w2);
+                }));
+                let after = ctx.runs.lock().unwrap().clone();
+                ctx.take_log();
+                let panic = r.err().or(r2.err()).map(|p| payload_str(&*p));
+                o.sendable_use = Some((order, after.iter().zip(before.iter()).map(|(a, b)| a - b).collect(), panic));
+                Ok(shape)
+            }
             Err(mut back) => {
                 // a rejected conversion hands the ORIGINAL dispatcher back: it goes on working, thread-local systems
                 // included, and a second conversion is rejected again
@@ -287,6 +349,24 @@ pub fn observe(ops: &[Op], resmap: &[u8], need: Need) -> Obs {
         });
     }
     if need.setup_dispose && all_ok(&o) {
+        // converted first: setup and dispose of the SENDABLE form reach every system once as well
+        {
+            let ctx4 = Ctx::new(info_n, resmap.to_vec());
+            let reg4 = register(ops, &ctx4, None, false);
+            if let Ok(d4) = build(reg4.builder) {
+                if let Ok(mut sd) = d4.try_into_sendable() {
+                    let mut w = World::empty();
+                    let r = catch_unwind(AssertUnwindSafe(move || {
+                        sd.setup(&mut w);
+                        sd.dispose(&mut w);
+                    }));
+                    if let Err(p) = r {
+                        o.dispatch_panic = Some(format!("setup / dispose of the sendable form: {}", payload_str(&*p)));
+                    }
+                    o.setups_via_sendable = Some((ctx4.setups.lock().unwrap().clone(), ctx4.disposes.lock().unwrap().clone()));
+                }
+            }
+        }
         o.setup_worlds = setup_worlds(ops, resmap);
         let ctx3 = Ctx::new(info_n, resmap.to_vec());
         let reg3 = register(ops, &ctx3, None, false);
